@@ -19,6 +19,8 @@ Ghost file sections (contracts/ghost/<unit>.ghost), all keyed by item label:
                                       into `#[verifier::external_body] fn name(params) -> ret`
                                       and replaced by the call name(args); following lines (up to
                                       the next @@) are the *assumed* contract of the hole
+  @@ <label> blockfn <n> ...          same syntax as blockhole, but the outlined function is VERIFIED: its contract lines are
+                                      proved, and ghost sections keyed by the function's name apply to its body
   @@ <label> bodyend <k>              lines inserted at the end of the body of loop k
   loop anchors: <k> may be written [n|<header line text>] (n-th loop with that header; n = * : every such loop),
                                       [n|<header>|in:A>>B] = only loops inside the block opened on the first line A (and, inside
@@ -39,6 +41,9 @@ import rustlex  # noqa: E402
 ROOT = os.path.dirname(os.path.dirname(os.path.abspath(__file__)))
 REPO = os.environ.get("VERIF_REPO", "/repo")
 TAG = " //@"
+
+
+BLOCKFN_USED = set()
 
 
 class Undecided(Exception):
@@ -213,6 +218,7 @@ def apply_ghost(text, label, ghost, report):
     phase B only inserts //@-tagged ghost lines.  Returns (unit text, extra items)."""
     secs = ghost.get(label)
     extra_items = []
+    block_fns = []
     # loop ordinals refer to the extracted text: mark every loop keyword before anything moves
     if any(s_[0] in ("desugar", "loop", "body", "bodyend", "afterloop", "beforeloop", "loopattr", "exhausted") for s_ in secs):
         pos0 = loop_positions(text)
@@ -344,7 +350,7 @@ def apply_ghost(text, label, ghost, report):
             else:
                 report["holes"].append({"item": label, "kind": "expression hole", "old": old, "new": new, "count": cnt,
                                         "assumed": [l.strip() for l in body if l.strip()]})
-        elif kind == "blockhole":
+        elif kind in ("blockhole", "blockfn"):
             n, rest = arg.split(" ", 1)
             fields = [x.strip() for x in rest.split("|")]
             anchor, fname, params, args, ret = fields[:5]
@@ -372,11 +378,21 @@ def apply_ghost(text, label, ghost, report):
                 if canon(tail) not in canon(after_block):
                     raise Undecided("blockhole %s: expected `%s` after the holed block" % (fname, tail))
                 body_txt = "{\n" + body_txt + "\n" + tail + "\n}"
-            extra_items.append("#[verifier::external_body]\nfn %s(%s) -> %s\n%s\n%s\n" % (
-                fname, params, ret, contract, body_txt))
-            report["holes"].append({"item": label, "kind": "block hole (body kept verbatim, unverified)", "fn": fname,
-                                    "anchor": anchor, "lines": nlines,
-                                    "assumed": [l.strip() for l in body if l.strip()]})
+            if kind == "blockfn":
+                # the block becomes a function of its own that IS verified (its contract is proved, not assumed): splits one
+                # huge verification condition in two; ghost sections keyed by the function's name apply to it
+                body_txt = re.sub(r"/\*@L\d+\*/", "", body_txt)   # the parent's loop markers: the function numbers its own loops
+                fn_txt = "fn %s(%s) -> %s\n%s\n%s\n" % (fname, params, ret, "\n".join(tag(contract.split("\n"))), body_txt)
+                fn_txt = apply_ghost(fn_txt, fname, ghost, report)
+                BLOCKFN_USED.add(fname)
+                block_fns.append("// ---- block function (verified): " + fname + "\n" + fn_txt)
+                _bump(report, "S3 brace block outlined verbatim into a verified function of its free variables")
+            else:
+                extra_items.append("#[verifier::external_body]\nfn %s(%s) -> %s\n%s\n%s\n" % (
+                    fname, params, ret, contract, body_txt))
+                report["holes"].append({"item": label, "kind": "block hole (body kept verbatim, unverified)", "fn": fname,
+                                        "anchor": anchor, "lines": nlines,
+                                        "assumed": [l.strip() for l in body if l.strip()]})
     for kind, arg, body in secs:
         if kind == "closure":
             # @@ f closure <n> <|params|> ==> <|typed params| -> (r: T)>   + ensures lines (ghost)
@@ -620,6 +636,8 @@ def apply_ghost(text, label, ghost, report):
         raise Undecided("erasure check failed for %s" % label)
     if extra_items:
         text = text + "\n\n" + "\n".join(extra_items)
+    if block_fns:
+        text = text + "\n\n" + "\n".join(block_fns)
     return text
 
 
@@ -894,7 +912,8 @@ def build_unit(unit, outdir, ghost_override=None, variant=None):
                 if variant is not None:
                     live = variant[1] if variant[0] == label else 0
                     # only the item text itself (hole fns appended after it are untouched)
-                    cut = with_ghost.find("\n\n#[verifier::external_body]\nfn hole_")
+                    cuts = [c_ for c_ in (with_ghost.find("\n\n#[verifier::external_body]\nfn hole_"), with_ghost.find("\n\n// ---- block function (verified): ")) if c_ >= 0]
+                    cut = min(cuts) if cuts else -1
                     head, tail = (with_ghost, "") if cut < 0 else (with_ghost[:cut], with_ghost[cut:])
                     head, narms = apply_armsplit(head, live)
                     with_ghost = head + tail
@@ -908,7 +927,7 @@ def build_unit(unit, outdir, ghost_override=None, variant=None):
         else:
             out.append(line)
     for label in ghost.sections:
-        if label not in used and not label.startswith("_"):
+        if label not in used and label not in BLOCKFN_USED and not label.startswith("_"):
             raise Undecided("ghost section for unknown item `%s`" % label)
     text = "\n".join(out)
     os.makedirs(outdir, exist_ok=True)
